@@ -543,6 +543,11 @@ class DegreeAnalysis:
             for ls, name, head in heads:
                 entry = ls.entry_env.get(name)
                 cls = self._quiet_deg(entry, env, atoms) if entry is not None else ANY
+                if entry is not None and _is_container_alloc(entry) and _column_writes_only(ls, name, head):
+                    # an array that is only a container: allocated (ones / empty / full) and then written column by
+                    # column; what it was filled with does not reach the result where the loops reach (their ranges
+                    # are checked by the rules that own the array, e.g. C09.R6)
+                    cls = ANY
                 for term in {b.env[name] for kind, b in ls.body_states if name in b.env}:
                     cls = join(cls, self._quiet_deg(term, env, atoms))
                 new[head] = cls
@@ -561,6 +566,29 @@ class DegreeAnalysis:
         # not silenced: ANY is the bottom of the lattice, so partially resolved loop atoms never create an issue
         # that the final assignment would not also create
         return self.deg(t, env, atoms)
+
+
+def _is_container_alloc(t):
+    while t[0] == 'meth' and t[1] in ('astype', 'copy'):
+        t = t[2]
+    return t[0] == 'call' and t[1] in ('numpy.ones_like', 'numpy.empty_like', 'numpy.ones', 'numpy.empty', 'numpy.full',
+                                       'numpy.full_like', 'numpy.zeros', 'numpy.zeros_like')
+
+
+def _column_writes_only(ls, name, head):
+    """every value the variable takes in the loop body is the head with whole columns replaced: X{[(:, i, ...)] := v}"""
+    FULL = ('slice', ('c', None), ('c', None), ('c', None))
+
+    def ok(t, depth=0):
+        if t == head:
+            return True
+        if t[0] == 's' and '@' in t[1]:
+            return True           # the same array carried by an inner loop
+        if t[0] == 'setitem' and t[2][0] == 'tuple' and t[2][1] and t[2][1][0] == FULL and depth < 8:
+            return ok(t[1], depth + 1)
+        return False
+    vals = [b.env[name] for kind, b in ls.body_states if name in b.env]
+    return bool(vals) and all(ok(v) for v in vals)
 
 
 def _leaves(d):
